@@ -39,6 +39,16 @@ def run(ctx, prop="C08"):
         if life_info.get("inconclusive") and not inconclusive:
             inconclusive = life_info["inconclusive"]
         ctx.log("long lives of shm_writer::run(): %s" % life_info)
+    if prop == "C08":
+        # the poller's side of "tracks the chrony history": a synchronised report that chronyd gave must reach the writer
+        from . import c13real
+        real = c13real.run_real(ctx)
+        for v in real["violations"]:
+            if v["sig"] == "real-poller-message-class" and "expected ClockErrorBoundData" in v["detail"]:
+                viol.append({"sig": "synchronised-report-not-passed-on", "detail": v["detail"], "replay": v.get("replay", "")})
+        if real.get("inconclusive") and not inconclusive:
+            inconclusive = real["inconclusive"]
+        ctx.log("real poller: %s scripts, %s steps" % (real.get("evaluations"), real.get("steps")))
     tl_info = None
     if prop == "C08":
         # The whole release binary: the record must track the history the *process* has seen, also
